@@ -137,7 +137,9 @@ class Mock : public DiscoverableRDMControllerInterface {
       // (e.g. the empty last frame of an ACK_OVERFLOW sequence)
       vector<uint8_t> d;
       if (r.len > 0) { d.assign(1 + r.len, (uint8_t) r.fill); d[0] = (uint8_t) id; }
-      resp = new RDMResponse(UID(1, r.src), UID(2, 2), 0, r.ty, r.mc, 0,
+      // PID, destination UID, transaction number and sub-device vary with the fill byte so that the
+      // parts of a sequence differ in them
+      resp = new RDMResponse(UID(1, r.src), UID(2, 2 + r.fill % 3), r.fill % 5, r.ty, r.mc, r.fill % 4,
                              static_cast<RDMCommand::RDMCommandClass>(r.cc), 100 + r.fill % 7,
                              d.empty() ? NULL : d.data(), d.size());
       vector<uint8_t> &g = W->given[id];
@@ -218,7 +220,9 @@ static void OnComplete(ReqCtx *ctx, RDMReply *reply) {
     c << id << ":" << kind << ":" << static_cast<int>(reply->StatusCode()) << ":";
     if (rs) c << static_cast<int>(rs->ResponseType()) << "." << rs->SourceUID().DeviceId() << "."
               << static_cast<int>(rs->CommandClass()) << "." << static_cast<int>(rs->MessageCount()) << "."
-              << rs->ParamId() << ":" << rle(rs->ParamData(), rs->ParamDataSize());
+              << rs->ParamId() << "." << rs->DestinationUID().DeviceId() << "."
+              << static_cast<int>(rs->TransactionNumber()) << "." << rs->SubDevice() << ":"
+              << rle(rs->ParamData(), rs->ParamDataSize());
     else c << "n";
     W->comps.push_back(c.str());
   }
